@@ -130,6 +130,7 @@ def pfe_decompose(F, v, m, Ns):
     if ratio is None:
         yield ('noratio',)
         return
+    yield ('ratio', ratio, fed)
     num_arg = ratio[2][0][2][0]
     den = ratio[2][1]
     from .e_trend import window_names
@@ -221,6 +222,8 @@ def pfe_rule(F, R, tier):
     probs = set()
     checked = 0
     for rec in pfe_decompose(F, v, m, range(3, (10 if tier == 'quick' else 33))):
+        if rec[0] == 'ratio':
+            continue
         if rec[0] == 'noratio':
             R.violation('RG-pfe', 'PolarizedFractalEfficiency:shape', 'the value fed to the moving average is not sqrt(dx² + H²) / Σ sqrt(d² + 1)', v.file)
             return
@@ -261,6 +264,20 @@ def pfe_statement_rule(F, R, tier):
     bad = []
     checked = 0
     for rec in pfe_decompose(F, v, m, range(3, (13 if tier == 'quick' else 40))):
+        if rec[0] == 'ratio':
+            # what is fed to the moving average is the ratio itself, with one of two signs: not a further function of it
+            from .terms import cases as _cases
+            _, ratio_, fed_ = rec
+            negs = (op('neg', ratio_), op('div', op('neg', ratio_[2][0]), ratio_[2][1]))
+            try:
+                leaves = [lf for _, lf in _cases(fed_)]
+            except OverflowError:
+                leaves = [None]
+            for lf in leaves:
+                if lf != ratio_ and lf not in negs:
+                    bad.append('the value fed to the moving average is %s, a further function of the signed ratio' % (tstr(lf)[:60] if lf is not None else '?'))
+                    break
+            continue
         if rec[0] != 'ok':
             bad.append('the value fed to the moving average is not of the form sqrt(dx² + H²) / Σ sqrt(d² + 1)')
             break
